@@ -11,11 +11,13 @@ import (
 	"net/http"
 	"os"
 	"path/filepath"
+	"strings"
 	"sync"
 	"time"
 
 	"github.com/BurntSushi/toml"
 	clock "github.com/jonboulle/clockwork"
+	bolt "go.etcd.io/bbolt"
 	"google.golang.org/grpc"
 	"google.golang.org/protobuf/encoding/protojson"
 	"google.golang.org/protobuf/encoding/prototext"
@@ -566,6 +568,92 @@ func forged(p *pdkg.DKGPacket) []*pdkg.DKGPacket {
 	return out
 }
 
+// unreadableRecord copies node n's real finished record (it holds the node's share) into a DKG
+// database of its own, rewrites the stored TOML of both buckets with bbolt so that it names a scheme
+// this binary does not know, and asks a real dkg.Process over that database for its status and to
+// handle a gossip packet: the errors it returns to the caller, and what it logs, are outputs.
+func (w *schemeWorld) unreadableRecord(dir string, n *dnode, id, tag string) error {
+	fin, err := n.store.GetFinished(id)
+	if err != nil || fin == nil {
+		return fmt.Errorf("no finished record to copy: %v", err)
+	}
+	st, err := dkg.NewDKGStore(dir)
+	if err != nil {
+		return err
+	}
+	if err := st.SaveFinished(id, fin); err != nil {
+		return err
+	}
+	if err := st.Close(); err != nil {
+		return err
+	}
+	db, err := bolt.Open(filepath.Join(dir, dkg.BoltFileName), 0o600, &bolt.Options{Timeout: 2 * time.Second})
+	if err != nil {
+		return err
+	}
+	rewritten := 0
+	err = db.Update(func(tx *bolt.Tx) error {
+		for _, bn := range []string{"dkg", "dkg_finished"} {
+			b := tx.Bucket([]byte(bn))
+			if b == nil {
+				continue
+			}
+			v := b.Get([]byte(id))
+			if v == nil {
+				continue
+			}
+			nv := strings.ReplaceAll(string(v), "\""+fin.SchemeID+"\"", "\"bls-unchained-future-scheme\"")
+			if nv != string(v) {
+				rewritten++
+			}
+			if err := b.Put([]byte(id), []byte(nv)); err != nil {
+				return err
+			}
+		}
+		return nil
+	})
+	_ = db.Close()
+	if err != nil {
+		return err
+	}
+	if rewritten == 0 {
+		return errors.New("the stored record does not name the scheme")
+	}
+	st2, err := dkg.NewDKGStore(dir)
+	if err != nil {
+		return err
+	}
+	for fmtI, lg := range []log.Logger{w.logger, w.loggerC} {
+		_ = fmtI
+		proc := dkg.NewDKGProcess(st2, ident{n.kp}, util.NewFanOutChan[dkg.SharingOutput](), &recBus{w: w, nodes: map[string]*dnode{}}, nil,
+			dkg.Config{Timeout: time.Minute, TimeBetweenDKGPhases: time.Second, KickoffGracePeriod: time.Second}, lg.Named("dkg-unreadable"))
+		// control port: dkg status
+		resp, err := proc.DKGStatus(context.Background(), &pdkg.DKGStatusRequest{BeaconID: id})
+		if err != nil {
+			w.cap.add("dkg.DKGStatus.unreadable-record@"+tag+"/response-error", []byte(err.Error()))
+			lg.Errorw("dkg status failed", "err", err) // what the daemon's caller (CLI) prints / the interceptors log
+		} else {
+			w.cap.recMsg("dkg.DKGStatus.unreadable-record@"+tag+"/response", resp)
+		}
+		// private port: any gossip packet makes the node read its current record
+		gp := &pdkg.GossipPacket{Packet: &pdkg.GossipPacket_Abort{Abort: &pdkg.AbortDKG{Reason: "none"}},
+			Metadata: &pdkg.GossipMetadata{BeaconID: id, Address: n.kp.Public.Addr, Signature: []byte("not-a-signature-not-a-signature-not-a-signature-not-a-signature.")}}
+		gresp, err := proc.Packet(context.Background(), gp)
+		if err != nil {
+			w.cap.add("dkg.Packet.unreadable-record@"+tag+"/response-error", []byte(err.Error()))
+			lg.Errorw("dkg packet failed", "err", err)
+		} else {
+			w.cap.recMsg("dkg.Packet.unreadable-record@"+tag+"/response", gresp)
+		}
+		// and a command from the operator
+		_, err = proc.Command(context.Background(), &pdkg.DKGCommand{Metadata: &pdkg.CommandMetadata{BeaconID: id}, Command: &pdkg.DKGCommand_Abort{Abort: &pdkg.AbortOptions{}}})
+		if err != nil {
+			w.cap.add("dkg.Command.unreadable-record@"+tag+"/response-error", []byte(err.Error()))
+		}
+	}
+	return st2.Close()
+}
+
 func (w *schemeWorld) dkgPart(tmp string, reshare bool) error {
 	id := common.DefaultBeaconID
 	bus := &recBus{w: w, nodes: map[string]*dnode{}}
@@ -705,6 +793,14 @@ func (w *schemeWorld) dkgPart(tmp string, reshare bool) error {
 		w.note("dkg: %d forged deal bundles sent after %s, %d refused", sent, tag, refused)
 	}
 	badPackets("epoch1")
+	// a stored record that still decodes as TOML but that this binary rejects (written by a newer
+	// version: a scheme it does not know): what do DKGStatus and the Packet endpoint answer then?
+	unreadable := func(tag string) {
+		if err := w.unreadableRecord(filepath.Join(tmp, "dkg-unreadable-"+tag), nodes[0], id, tag); err != nil {
+			w.note("dkg: unreadable-record scenario (%s) did not run: %v", tag, err)
+		}
+	}
+	unreadable("epoch1")
 	if !reshare {
 		return nil
 	}
@@ -736,5 +832,6 @@ func (w *schemeWorld) dkgPart(tmp string, reshare bool) error {
 	status("epoch2")
 	w.note("dkg: resharing completed in %.1fs", time.Since(start2).Seconds())
 	badPackets("epoch2")
+	unreadable("epoch2")
 	return nil
 }
